@@ -20,7 +20,6 @@ from gen_translate import ERRORS, Method, Unsupported, fail
 
 gt.TYPES.setdefault("tuple[Rows, int, int]", "List Row × Nat × Nat")
 RENAME = {"prefix": "prefix_"}
-LOCALS = {"prefix_entry_index": "Option Nat", "name_entry_index": "Option Nat", "term_rows": "List Row", "prefix_": "String", "name": "String"}
 ENTRY_ROWS = {("RdfPrefixEntry", "prefix"): "prefixEntry", ("RdfNameEntry", "name"): "nameEntry", ("RdfDatatypeEntry", "datatype"): "dtEntry"}
 LOOKUP_METHODS = {"encode_entry_index", "encode_prefix_term_index", "encode_name_term_index", "encode_datatype_term_index", "encode_term_index"}
 
@@ -44,8 +43,46 @@ class EncMethod(Method):
         self.loopvar: dict[str, list[str]] = {}         # loop variable -> the path it stands for in this unrolled iteration
         self.msgs: dict[str, tuple[str, str, str]] = {}  # local holding a protobuf entry message -> (class, id term, value term)
 
+    def infer_local_types(self) -> dict[str, str]:
+        """Types of the locals, read off their assignments (no table of names: a renamed local must not break the translation)."""
+        types: dict[str, str] = {}
+        for p in self.fn.args.args[1:]:
+            ann = ast.unparse(p.annotation) if p.annotation is not None else None
+            types[p.arg] = {"str": "String", "int": "Nat"}.get(ann, "Nat")
+
+        def ty(v) -> str | None:
+            if isinstance(v, ast.List):
+                return "List Row"
+            if isinstance(v, ast.Constant) and v.value is None:
+                return None   # decided by the other assignments of the same local
+            if isinstance(v, ast.Constant) and isinstance(v.value, str):
+                return "String"
+            if isinstance(v, ast.Name):
+                return types.get(v.id)
+            if isinstance(v, ast.Call) and isinstance(v.func, ast.Attribute) and v.func.attr == "encode_entry_index":
+                return "Option Nat"
+            return "Nat"
+
+        for node in ast.walk(self.fn):
+            if not isinstance(node, ast.Assign) or len(node.targets) != 1:
+                continue
+            tg, v = node.targets[0], node.value
+            if isinstance(tg, ast.Tuple) and isinstance(v, ast.Call) and isinstance(v.func, ast.Name) and v.func.id == "split_iri":
+                for el in tg.elts:
+                    if isinstance(el, ast.Name):
+                        types[el.id] = "String"
+            elif isinstance(tg, ast.Name):
+                t = ty(v)
+                if t is not None and not (types.get(tg.id, "").startswith("Option") and t == "Nat"):
+                    types[tg.id] = t
+        return types
+
     def local_type(self, name: str) -> str:
-        return LOCALS.get(name, "Nat")
+        if not hasattr(self, "_ltypes"):
+            self._ltypes = self.infer_local_types()
+            for k, v in list(self._ltypes.items()):
+                self._ltypes[RENAME.get(k, k)] = v
+        return self._ltypes.get(name, "Nat")
 
     def assign_local(self, ind: int, name: str, term: str) -> None:
         super().assign_local(ind, RENAME.get(name, name), term)
